@@ -278,7 +278,7 @@ func schedTrace(res ProcResult) []int {
 // a random schedule must print the same and exit the same.
 func parExecuteCmd(sc *Scenario, out *Outcome) *Outcome {
 	pc := sc.Par
-	root, err := os.MkdirTemp(scratchBase(), "verif-par-")
+	root, err := mkScratch("par")
 	if err != nil {
 		out.Error = err.Error()
 		return out
